@@ -24,7 +24,7 @@ func TestVerif(t *testing.T) {
 		ID:    "C16",
 		Level: "model_checking",
 		Rule: "auth.Client over an in-process transport hosting two registries (a.example, and b.example or - same host name, other port - a.example:8443) and their token realms (one on the registry's own host, one on a foreign host), each with distinct recognisable secrets. " +
-			"sequential: every request sequence of length <= 3 (thorough 4) over {registry A|B} x {scope hint r1:pull | r2:pull,push | none} plus a request that registry A redirects to registry B and the base endpoint /v2/ of registry A (whose Bearer challenge names no scope) with and without a scope hint, for every pair of per-registry auth modes {Basic, Bearer distribution, Bearer OAuth2 refresh token, Bearer OAuth2 password+ForceAttemptOAuth2, access token; registry B also: a Bearer challenge that names no realm (outcome not judged, only what travelled)}, " +
+			"sequential: every request sequence of length <= 3 (thorough 4) over {registry A|B} x {scope hint r1:pull | r2:pull,push | none} plus a request that registry A redirects to registry B and the base endpoint /v2/ of registry A (whose Bearer challenge names no scope) with and without a scope hint, for every pair of per-registry auth modes {Basic, Bearer distribution, Bearer OAuth2 refresh token, Bearer OAuth2 password+ForceAttemptOAuth2, access token; registry B also: a Bearer challenge that names no realm (outcome not judged, only what travelled), and an anonymous registry (no credential configured for it) whose challenge names registry A as its service}, " +
 			"every cache flavour {none, shared, single-context}, a scheme change of registry A after request {never,1,2}, and 3 renderings of the challenge scope string (order / duplication / wildcard action). " +
 			"concurrent: 2-3 goroutines through one cache (same host and scope, same host different scopes, different hosts, first caller cancelled during the token fetch, the second of three callers cancelled) under every schedule within D<=2. " +
 			"Oracle at the innermost transport: every outgoing request is scanned (headers, query, body) for every secret of the other registry; passwords/refresh tokens only to the registry that challenged Basic or to the realm that registry advertised; " +
@@ -92,6 +92,8 @@ func (w *world) credential(_ context.Context, hostport string) (auth.Credential,
 		return auth.EmptyCredential, nil
 	}
 	switch r.mode {
+	case "anon":
+		return auth.EmptyCredential, nil
 	case "basic", "dist", "oauth-pass", "norealm":
 		return auth.Credential{Username: r.user, Password: r.pass}, nil
 	case "oauth-refresh":
@@ -328,7 +330,11 @@ func (w *world) RoundTrip(req *http.Request) (*http.Response, error) {
 		}
 		cs := w.challengeScope(need)
 		w.asked[id] = cs
-		ch := fmt.Sprintf(`Bearer realm="%s",service="%s",scope="%s"`, r.realm, owner, cs)
+		svc := owner
+		if r.mode == "anon" {
+			svc = "a.example" // an anonymous registry that names the other registry as its service (a mirror in front of it)
+		}
+		ch := fmt.Sprintf(`Bearer realm="%s",service="%s",scope="%s"`, r.realm, svc, cs)
 		return resp(req, 401, http.Header{"Www-Authenticate": {ch}}, ""), nil
 	}
 }
@@ -369,6 +375,9 @@ func (w *world) realm(req *http.Request, r *regSpec, body string) *http.Response
 		case "password":
 			okCred = f.Get("username") == r.user && f.Get("password") == r.pass && (r.mode == "oauth-pass" || r.mode == "dist")
 		}
+	}
+	if r.mode == "anon" {
+		okCred = true // this registry hands out tokens to anybody; the client holds no credential for it
 	}
 	w.log = append(w.log, fmt.Sprintf("   realm(%s) %s scopes=%v ok=%v", r.host, req.Method, scopes, okCred))
 	if w.cacheKind == "shared" || w.cacheKind == "single" {
@@ -478,7 +487,7 @@ func jobs(tier string) []driver.Job {
 		depth = 4
 	}
 	for _, ma := range modes {
-		for _, mb := range append(append([]string{}, modes...), "norealm") {
+		for _, mb := range append(append([]string{}, modes...), "norealm", "anon") {
 			for _, cache := range []string{"none", "shared", "single"} {
 				ma, mb, cache := ma, mb, cache
 				name := fmt.Sprintf("seq/A=%s/B=%s/cache=%s/depth%d", ma, mb, cache, depth)
